@@ -1296,7 +1296,11 @@ func Open(vm *VM, sourceSink, mode, stream, options Term, k Cont, env *Env) *Pro
 	}
 
 	s := Stream{vm: vm, mode: streamMode}
-	switch f, err := openFile(name, int(s.mode), 0644); {
+	flag := int(s.mode)
+	if s.mode == ioModeWrite {
+		flag |= os.O_TRUNC // The sink is emptied.
+	}
+	switch f, err := openFile(name, flag, 0644); {
 	case err == nil:
 		if s.mode == ioModeRead {
 			s.source = f
